@@ -150,9 +150,107 @@ def apply_event(rec, ev):
         return e
 
 
+WIRE = [
+    ("digest", ["bin:" + "aa" * 15, None, None]), ("digest", [None, "bin:" + "aa" * 16, None]), ("digest", [None, None, "bin:" + "aa" * 40]), ("digest", ["bin:" + "aa" * 16, None, None]),
+    ("uint16", 70000), ("uint16", -1), ("uint32", 2**32), ("boolean", 2), ("boolean", -1), ("net.tcp.Port", 65536), ("net.ipaddress", "not an address"), ("net.ipaddress", -5),
+    ("net.ipnetwork", "10.0.0.1/8"), ("bytes", "text on the wire"), ("uint16", 65535), ("boolean", True), ("datetime", "str:2020-01-01T00:00:00"),
+]
+
+
+def run_wire(case):
+    """Deliver a crafted record frame (reference codec) whose field value the declared type cannot represent."""
+    from flow.record import RecordStreamReader
+    from mc import refcodec
+
+    h = jhash(case)
+    t, wire = case["t"], case["wire"]
+
+    def conv(x):
+        if isinstance(x, str) and x.startswith("bin:"):
+            return refcodec.Bin(bytes.fromhex(x[4:]))
+        if isinstance(x, str) and x.startswith("str:"):
+            return x[4:]
+        if isinstance(x, list):
+            return [conv(y) for y in x]
+        return x
+
+    viol = []
+    fields = [[t, "x"], [t + "[]", "xs"]] if t in LIST_TYPES else [[t, "x"]]
+    hdr = refcodec.frame(refcodec.mp_encode(refcodec.Bin(refcodec.MAGIC)))
+    desc = refcodec.frame(refcodec.mp_encode(refcodec.Ext(14, refcodec.mp_encode([2, ["f/wire", fields]]))))
+    ident = ["f/wire", refcodec.desc_hash("f/wire", [(a, b) for a, b in fields])]
+    out = "ok"
+    for slot in (["x"] if len(fields) == 1 else ["x", "xs"]):
+        vals = [conv(wire) if slot == "x" else None] + ([[conv(wire)] if slot == "xs" else None] if len(fields) == 2 else []) + [None, None, None, 1]
+        rec = refcodec.frame(refcodec.mp_encode(refcodec.Ext(14, refcodec.mp_encode([1, [ident, vals]]))))
+        try:
+            with warnings.catch_warnings():
+                warnings.simplefilter("ignore")
+                got = list(RecordStreamReader(io.BytesIO(hdr + desc + rec)))
+            for g in got:
+                slot_invariant(g, "decoded-from-foreign-stream", case, viol)
+                value_invariant(g, t, slot, case, viol)
+            out = "accepted"
+        except Exception:  # noqa: BLE001
+            out = "rejected"
+    return {"ev": 1, "h": h, "nt": True, "out": "wire:%s:%s" % (t, out), "viol": viol}
+
+
+def value_invariant(rec, t, slot, case, viol):
+    """A decoded value must be one the type can represent (the same rules construction enforces)."""
+    from flow.record import fieldtypes as ft
+
+    v = getattr(rec, slot)
+    vs = v if isinstance(v, list) else [v]
+    for x in vs:
+        bad = None
+        if isinstance(x, ft.digest):
+            for nm, ln in (("md5", 32), ("sha1", 40), ("sha256", 64)):
+                hx = getattr(x, nm)
+                if hx is not None and len(hx) != ln:
+                    bad = "%s-length-%d" % (nm, len(hx))
+        elif isinstance(x, ft.uint16) and not (0 <= x.value <= 0xFFFF):
+            bad = "uint16-out-of-range"
+        elif isinstance(x, ft.uint32) and not (0 <= x.value <= 0xFFFFFFFF):
+            bad = "uint32-out-of-range"
+        elif isinstance(x, ft.boolean) and x.value not in (True, False):
+            bad = "boolean-not-0/1"
+        if bad:
+            viol.append(("C05:decoded-unrepresentable-value:%s:%s" % (t, bad), case, {"slot": slot, "value": repr(x)[:80]}))
+
+
+def run_twins(case):
+    h = jhash(case)
+    a, b = case["twins"]
+    viol = []
+    import flow.record.base as base
+
+    base.fieldtype.cache_clear()
+    base._generate_record_class.cache_clear()
+    recs._DESC_CACHE.clear()
+    desc = recs.descriptor("f/twins", [[a + "[]", "xs"], [b + "[]", "ys"]])
+    gen = lit.ev("dt(2020,1,1,tz=UTC)")
+    val = {"net.tcp.Port": 80, "net.udp.Port": 53, "net.ipaddress": "1.2.3.4", "net.IPAddress": "1.2.3.4", "string": "s", "wstring": "w", "varint": 1, "filesize": 2}
+    r = desc.recordType(xs=[val[a]], ys=[val[b]], _generated=gen)
+    slot_invariant(r, "constructed", case, viol)
+    want = {n: base.fieldtype(tn) for n, tn in (("xs", a), ("ys", b))}
+    for n, cls in want.items():
+        for e in getattr(r, n):
+            if type(e) is not cls:
+                viol.append(("C05:list-element-of-sibling-type:%s" % "+".join(sorted([a, b])), case, {"field": n, "element_class": repr(type(e)), "declared": repr(cls)}))
+    err, data = serialisable(r)
+    if err is None:
+        decode_probes(r, data, a, case, viol)
+    return {"ev": 1, "h": h, "nt": True, "out": "twins:%s" % ("ok" if not viol else "bad"), "viol": viol}
+
+
 def run_case(case):
     from flow.record import GroupedRecord
 
+    if case.get("twins"):
+        return run_twins(case)
+    if "wire" in case:
+        return run_wire(case)
     h = jhash(case)
     t = case["t"]
     viol = []
@@ -256,6 +354,12 @@ def cases(tier, seed):
             yield {"t": t, "keyword": True, "events": [[list(e[0]), e[1]] for e in hist]}
     # nested record fields: pass-through type, candidates are records and None
     yield {"t": "record", "events": [[["x", "None"], V]]}
+    # element classes that share a Python class name (tcp.port / udp.port; ipaddress / IPAddress): both list forms in one process
+    for pair in (["net.tcp.Port", "net.udp.Port"], ["net.udp.Port", "net.tcp.Port"], ["net.ipaddress", "net.IPAddress"], ["string", "wstring"], ["varint", "filesize"]):
+        yield {"t": pair[0], "twins": pair, "events": []}
+    # hostile wire values: a stream / JSON line from elsewhere carrying what the type cannot represent
+    for t, wire in WIRE:
+        yield {"t": t, "wire": wire, "events": []}
 
 
 def main(tier, seed, workers=None):
